@@ -244,7 +244,7 @@ func (n *N) keyVals(e *model.Tree) ([]val.Value, error) {
 	for _, k := range e.S.Keys {
 		v, err := ToVal(e.S.Child(k), e.Leaf[k])
 		if err != nil {
-			return nil, err
+			return nil, fmt.Errorf("mnode: entry of %s holds key %s=%q: %w", e.S.Path(), k, e.Leaf[k], err)
 		}
 		out = append(out, v)
 	}
@@ -313,6 +313,9 @@ func (n *N) Field(r node.FieldRequest, hnd *node.ValueHandle) error {
 		}
 	} else if v, ok := n.T.Leaf[name]; ok {
 		hnd.Val, err = ToVal(s, v)
+	}
+	if err != nil {
+		err = fmt.Errorf("mnode: model holds %q for %s %s (%s): %w", n.T.Leaf[name], s.Kind, s.Path(), s.Type, err)
 	}
 	return err
 }
